@@ -40,14 +40,14 @@ P == CASE Profile = "c04q" ->
             [slots |-> <<<<"src", "h.h">>, <<"inc", "h.h">>, <<"sys", "h.h">>, <<"ext", "h.h">>,
                          <<"src", "g.h">>, <<"inc", "g.h">>, <<"ext", "g.h">>>>,
              bodies |-> {"plain", "def", "guard", "once", "testX", "undefX", "defX", "incq", "inca", "gincq", "indX"},
-             stmts |-> {"qh", "ah", "qg", "ag", "defX", "undefX", "testX", "mq", "ma", "dead", "undefM", "inch", "indX"},
+             stmts |-> {"qh", "ah", "qg", "ag", "defX", "undefX", "testX", "valX", "mq", "ma", "dead", "undefM", "inch", "indX"},
              maxmain |-> 4, nmains |-> 2,
              idirs |-> {<<Iu("inc"), Is("sys")>>, <<Iu("inc")>>, <<Is("sys"), Iu("inc")>>, <<Iu("sys"), Iu("inc")>>, <<>>,
                         <<Iu("ext"), Iu("inc")>>, <<Iu("inc"), Iu("ext"), Is("sys")>>, <<Iu("src"), Iu("inc")>>, <<Iu("inc"), Iu("src")>>},
              forced |-> {<<>>, <<"g.h">>}, nents |-> 3, plats |-> <<"p1", "p2">>]
       [] Profile = "c08q" ->
             [slots |-> <<<<"inc", "h.h">>, <<"inc", "g.h">>>>,
-             bodies |-> {"once", "guard", "testX", "defX", "undefX", "indX"}, stmts |-> {"qh", "qg", "testX", "defX", "inch", "indX"},
+             bodies |-> {"once", "guard", "testX", "defX", "undefX", "indX"}, stmts |-> {"qh", "qg", "testX", "valX", "defX", "inch", "indX"},
              maxmain |-> 2, nmains |-> 2, idirs |-> {<<Iu("inc")>>}, forced |-> {<<>>}, nents |-> 2, plats |-> <<"p1", "p2">>]
       [] Profile = "c08m" ->
             [slots |-> <<<<"inc", "h.h">>, <<"inc", "g.h">>>>,
@@ -84,6 +84,9 @@ GhostChoices == IF Profile = "c18" THEN {FALSE, TRUE} ELSE {FALSE}
 HdrChoices == CASE Profile = "c18" -> {"U", "q:h.h", "a:g.h", "q:nope.h"}
                 [] Profile \in {"sim", "c04t", "c08q", "c04h"} -> {"U", "q:h.h", "a:g.h", "q:g.h"}
                 [] OTHER -> {"U"}
+
+\* the value -DX gets: the same NAME may be defined to different values by the commands of one platform
+XChoices == IF Profile \in {"sim", "c08q"} THEN {"U", "1", "0"} ELSE {"U", "1"}
 
 Slots == P.slots
 Bodies == P.bodies
@@ -135,6 +138,7 @@ Stmt(s) ==
     [] s = "defX" -> <<Def("X", "1"), C>>
     [] s = "undefX" -> <<[k |-> "undef", m |-> "X"], C>>
     [] s = "testX" -> <<IfDef("X"), C, Else, C, Endif>>
+    [] s = "valX" -> <<If([t |-> "val", m |-> "X"]), C, Else, C, Endif>>
     [] s = "mq" -> <<Def("HDR", "q:h.h"), [k |-> "includem", m |-> "HDR"], [k |-> "undef", m |-> "HDR"], C>>
     [] s = "ma" -> <<Def("HDR", "a:h.h"), [k |-> "includem", m |-> "HDR"], [k |-> "undef", m |-> "HDR"], C>>
     [] s = "dead" -> <<If([t |-> "const", n |-> 0]), Inc("q", "h.h"), Inc("q", "nope.h"), C, Endif>>
@@ -193,7 +197,7 @@ CloseMain == /\ stage = "main" /\ ns > 0
 
 DefsOf(x, hdr) == [m \in Macros |-> IF m = "X" THEN x ELSE IF m = "HDR" THEN hdr ELSE "U"]
 AddEntry == /\ stage = "tu" /\ Len(ents) < NEntries
-            /\ \E p \in 1..Len(Plats), mi \in 1..(NMains + IF HasCopy THEN 1 ELSE 0), x \in {"U", "1"}, ids \in IdirChoices, fo \in ForcedChoices,
+            /\ \E p \in 1..Len(Plats), mi \in 1..(NMains + IF HasCopy THEN 1 ELSE 0), x \in XChoices, ids \in IdirChoices, fo \in ForcedChoices,
                   cc \in CcChoices, xf \in FlagChoices, gh \in GhostChoices, hd \in HdrChoices :
                  \* canonical: platforms are used in order, without gaps
                  /\ (IF p = 1 THEN TRUE ELSE \E j \in 1..Len(ents) : ents[j].plat = Plats[p - 1])
